@@ -338,7 +338,7 @@ func TestC05(t *testing.T) {
 	// ---- decode stage: seeded pseudo-random sample of the full product, through Decode -----------
 	{
 		const space = 729 * 101 * 1921
-		total := uint64(pick(200000, 4000000))
+		total := uint64(pick(800000, 4000000))
 		key := mix(uint64(seed), 0xc05)
 		var ev2, nt2 int64
 		cl2 := map[string]int64{}
@@ -383,7 +383,7 @@ func TestC05(t *testing.T) {
 	}
 
 	// ---- rapid: random vectors (shrinkable) ------------------------------------------------
-	c.rapidStage("rapid", pick(5000, 200000), func(rt *rapid.T) {
+	c.rapidStage("rapid", pick(16000, 200000), func(rt *rapid.T) {
 		vec := gen.ValidV2(spec.Environmental).Draw(rt, "vector")
 		cs := scoreCase2{Level: 2, NilRecv: rapid.Bool().Draw(rt, "nilrecv"), Input: vec.String()}
 		var f fieldCase2
